@@ -184,10 +184,10 @@ def jobs(tier, seed):
         for si, sc in enumerate(SCAFFOLDS):
             if mode == "both" and si != 4:
                 continue
-            if si % 2 == 1 or (mode == "replacements" and si in (0, 4)):
-                continue
+            if si % 2 == 1 or (mode == "replacements" and si in (0, 4)) or si == 8:
+                continue  # scaffold 8 (dash/ellipsis runs): CrossHair's regex model disagrees with the interpreter on the look-ahead patterns
             sc2 = [("x" if p == H("b") else p) for p in sc]
-            symq = mode != "replacements" and si in (0, 4)
+            symq = False  # symbolic quote characters: thorough tier
             jobs.append({"harness": "typo", "params": {"mode": mode, "scaffold": sc2, "spec": tspec, "quotes": "chars" if symq else None, "name": "ctx"},
                          "weight": 5, "cpu_cap": 2400, "wall_cap": 3600, "path_cap": 120})
     for ql in (["<<", ">>", "", ""], ["", "", "'", "''"], ["„", "“", "‚", "‘"]):
